@@ -60,6 +60,108 @@ pub struct Exec {
     pub wall_us: u128,
     pub wait_stats: (u64, u64),
     pub decisions: Vec<(u8, u8)>,
+    pub spawn_fault_engaged: bool,
+}
+
+// ---- operating-system fault: no thread can be created while the guard lives
+
+#[repr(C)]
+struct RLimit {
+    cur: u64,
+    max: u64,
+}
+extern "C" {
+    fn getrlimit(resource: i32, rlim: *mut RLimit) -> i32;
+    fn setrlimit(resource: i32, rlim: *const RLimit) -> i32;
+    fn mallopt(param: i32, value: i32) -> i32;
+}
+const RLIMIT_AS: i32 = 9;
+
+/// Makes the allocator keep freed memory (so that the harness itself does not need new address space while the limit
+/// is lowered) and pre-grows the heap once per process.
+pub fn prepare_heap_for_spawn_faults() {
+    unsafe {
+        // M_TRIM_THRESHOLD = -1, M_MMAP_THRESHOLD = -3, M_ARENA_MAX = -8
+        mallopt(-1, i32::MAX);
+        mallopt(-3, 1 << 30);
+    }
+    let mut hold: Vec<Vec<u8>> = Vec::new();
+    for _ in 0..96 {
+        hold.push(vec![1u8; 1 << 20]);
+    }
+    drop(hold);
+}
+
+pub struct NoNewThreads {
+    prev: Option<RLimit>,
+    parked: Vec<std::thread::JoinHandle<()>>,
+    release: std::sync::Arc<std::sync::atomic::AtomicBool>,
+}
+
+impl NoNewThreads {
+    pub fn engage() -> NoNewThreads {
+        // the C library keeps the stacks of finished threads in a cache: occupy them with parked threads first, so that
+        // a new thread really needs new address space
+        let release = std::sync::Arc::new(std::sync::atomic::AtomicBool::new(false));
+        let mut parked = vec![];
+        for _ in 0..40 {
+            let r = release.clone();
+            if let Ok(h) = std::thread::Builder::new().spawn(move || {
+                while !r.load(std::sync::atomic::Ordering::Acquire) {
+                    std::thread::park_timeout(std::time::Duration::from_millis(20));
+                }
+            }) {
+                parked.push(h);
+            }
+        }
+        let mut g = Self::engage_limit();
+        g.parked = parked;
+        g.release = release;
+        g
+    }
+
+    fn engage_limit() -> NoNewThreads {
+        let vm_pages: u64 = std::fs::read_to_string("/proc/self/statm")
+            .ok()
+            .and_then(|s| s.split_whitespace().next().and_then(|x| x.parse().ok()))
+            .unwrap_or(0);
+        if vm_pages == 0 {
+            return NoNewThreads { prev: None, parked: vec![], release: Default::default() };
+        }
+        let mut old = RLimit { cur: 0, max: 0 };
+        unsafe {
+            if getrlimit(RLIMIT_AS, &mut old) != 0 {
+                return NoNewThreads { prev: None, parked: vec![], release: Default::default() };
+            }
+            // less than one thread stack (2 MiB) of new address space
+            let lim = RLimit {
+                cur: vm_pages * 4096,
+                max: old.max,
+            };
+            if setrlimit(RLIMIT_AS, &lim) != 0 {
+                return NoNewThreads { prev: None, parked: vec![], release: Default::default() };
+            }
+        }
+        NoNewThreads { prev: Some(old), parked: vec![], release: Default::default() }
+    }
+    pub fn engaged(&self) -> bool {
+        self.prev.is_some()
+    }
+}
+
+impl Drop for NoNewThreads {
+    fn drop(&mut self) {
+        if let Some(old) = &self.prev {
+            unsafe {
+                setrlimit(RLIMIT_AS, old);
+            }
+        }
+        self.release.store(true, std::sync::atomic::Ordering::Release);
+        for h in self.parked.drain(..) {
+            h.thread().unpark();
+            let _ = h.join();
+        }
+    }
 }
 
 pub fn find_shape(shapes: &[&'static ShapeInfo], src: Src, shape: &str) -> Option<&'static ShapeInfo> {
@@ -82,7 +184,10 @@ pub fn exec(shapes: &[&'static ShapeInfo], case: Case) -> Exec {
     let ctx = Ctx::new(case.clone());
     let ctx_owned = item::born();
     ctx.install();
+    let guard = if case.spawn_fail { Some(NoNewThreads::engage()) } else { None };
     let r = catch_unwind(AssertUnwindSafe(|| (info.run)(&ctx, term)));
+    let spawn_fault_engaged = guard.as_ref().map(|g| g.engaged()).unwrap_or(false);
+    drop(guard);
     ctx.uninstall();
     let obs = match r {
         Ok(o) => Ok(o),
@@ -108,6 +213,7 @@ pub fn exec(shapes: &[&'static ShapeInfo], case: Case) -> Exec {
     let wait_stats = ctx.sched.as_ref().map(|s| s.wait_stats()).unwrap_or((0, 0));
     let decisions = ctx.sched.as_ref().map(|s| s.decisions()).unwrap_or_default();
     let e = Exec {
+        spawn_fault_engaged,
         decisions,
         wait_stats,
         case,
